@@ -203,11 +203,17 @@ def make_call(rng, entry, pattern, str_dtype=False, big=False):
                 call['tok'] = None
                 call['sim'] = 'user_numdiff'
                 call['threshold'] = rng.choice([0, 1, 2.5])
+    if 'filter' not in call and rng.random() < 0.3:
+        call['np_flag'] = True
     return call
 
 
 def with_missing(call, flag):
     c = dict(call)
+    if call.get('np_flag') and 'filter' not in c:
+        # a truthy / falsy flag computed from data (numpy bool) instead of the literal True / False
+        import numpy as np
+        flag = np.bool_(flag)
     if 'filter' in c:
         c['filter'] = dict(c['filter'], allow_missing=flag)
     else:
